@@ -325,8 +325,12 @@ def _work_lattice(case):
                     ents.append(F.Entry(f"m{i + j}/" if d else f"m{i + j}", cd_file_size=f, cd_compress_size=c))
             i += k
         stub = _outcome(lambda: zb.validate_zipfile(_Stub(infos), limits=limits, source="c11"))
+        twin = None                                   # control twin: the same vector without its directory entries
+        if any(d for _, _, d, _ in runs):
+            files_only = [z for z in infos if not z.filename.endswith("/")]
+            twin = _outcome(lambda: zb.validate_zipfile(_Stub(files_only), limits=limits, source="c11"))
         if not case.get("real", True):
-            res.append([stub, None, None, 0, 0])
+            res.append([stub, None, None, 0, 0, twin])
             continue
         data = F.raw_zip(ents)
         bio = io.BytesIO(data)
@@ -336,7 +340,7 @@ def _work_lattice(case):
         real = _outcome(lambda: zb.validate_zip_bytesio(bio, limits=limits, source="c11"))
         p1 = bio.tell()
         opened = _outcome(lambda: zb.open_zipfile(io.BytesIO(data), limits=limits, source="c11"))
-        res.append([stub, real, opened, p0, p1])
+        res.append([stub, real, opened, p0, p1, twin])
     return {"res": res}
 
 
@@ -449,7 +453,7 @@ def _work_extract(case):
 _PENDING: list = []
 
 
-def _violating(run, ref, got, component, entries, lim, replay):
+def _violating(run, ref, got, component, entries, lim, replay, twin=None):
     """Queue a decision mismatch; ``flush_pending`` names the mechanism once all of them are known."""
     m = margins(entries, lim)
     zero = any((not d) and f > 0 and c == 0 for f, c, d in entries)
@@ -460,10 +464,14 @@ def _violating(run, ref, got, component, entries, lim, replay):
         sym = ("accepted" if got == "accept" else "raised-" + got[4:]) + "-instead-of-zip-bomb-error"
     elif ref == {False} and got != "accept":
         kind = "wrong-reject"
-        feats = frozenset(k for k in CLAUSES if m[k] == 0)
+        feats = frozenset([k for k in CLAUSES if m[k] == 0] + (["n"] if len(entries) == lim[0] else []))
         sym = ("rejected" if got == "reject" else "raised-" + got[4:]) + "-within-limits"
     else:
         return False
+    if dirs and twin is not None:
+        tref = ref_decide([e for e in entries if not e[2]], lim)
+        if tref == ref and twin == ("reject" if tref == {True} else "accept"):
+            feats = frozenset(["directory-entries"])     # the twin without directory entries is decided correctly
     what = (f"limits (entries,total,single,total-ratio,entry-ratio)={lim} entries(f,c,dir,count)={compress_runs(entries)[:12]} "
             f"margins={m}: spec says {'reject' if ref == {True} else 'accept'}, {component} -> {got}")
     _PENDING.append((component, kind, sym, feats, dirs, len(entries), what, replay))
@@ -479,6 +487,7 @@ def flush_pending(run):
     del _PENDING[:]
     for (component, kind, sym), items in sorted(groups.items()):
         prefix = "exceeds-" if kind == "wrong-accept" else "on-limit-"
+        named = {"directory-entries": "directory-entries-present"}
         left = items
         while left:
             tally: dict = {}
@@ -489,7 +498,7 @@ def flush_pending(run):
                 best = max(sorted(tally), key=lambda f: tally[f])
                 mine = [it for it in left if best in it[3]]
                 left = [it for it in left if best not in it[3]]
-                feat = prefix + best
+                feat = named.get(best, prefix + best)
             else:                       # no clause is exceeded / on its limit
                 mine = [it for it in left if it[4]] or left
                 feat = "clean+directory-entries" if mine[0][4] else "clean"
@@ -505,14 +514,14 @@ def eval_lattice(run, case, obs, cells):
         run.count("lattice_chunks_lost")
         return
     lim = case["lim"]
-    for vi, (runs, (stub, real, opened, p0, p1)) in enumerate(zip(case["vectors"], obs["res"])):
+    for vi, (runs, (stub, real, opened, p0, p1, twin)) in enumerate(zip(case["vectors"], obs["res"])):
         entries = expand(runs)
         ref = ref_decide(entries, lim)
         rep = {"kind": "lattice", "lim": lim, "vectors": [runs], "base": case["base"] + vi}
         for comp, got in (("validate_zipfile[ZipInfo-stub]", stub), ("validate_zip_bytesio[forged-zip]", real), ("open_zipfile[forged-zip]", opened)):
             if got is None:
                 continue
-            _violating(run, ref, got, comp, entries, lim, rep)
+            _violating(run, ref, got, comp, entries, lim, rep, twin)
             run.count("decisions_compared" if len(ref) == 1 else "decisions_unconstrained_by_statement")
         if real is None:
             run.count("stub_only_vectors")
